@@ -434,6 +434,9 @@ func (fv *FuncVerifier) evalIdent(st *State, id *ast.Ident) Val {
 			return v
 		}
 	case *types.Var:
+		if tgt, ok := fv.aliases[o]; ok {
+			return fv.evalAddr(st, tgt, o.Type())
+		}
 		return fv.readVar(st, o)
 	case *types.Func:
 		return Val{T: fv.eng.funcRef(o), Ty: o.Type()}
@@ -854,6 +857,13 @@ func (fv *FuncVerifier) evalSelector(st *State, e *ast.SelectorExpr, t types.Typ
 	}
 	switch sel.Kind() {
 	case types.FieldVal:
+		if tgt := fv.aliasTarget(e.X); tgt != nil {
+			// x.f where x names the location &root.path: read root.path then select f
+			x := fv.eval(st, tgt)
+			v := fv.selectPath(st, x, sel.Index(), fv.exprText(e))
+			fv.assumeInv(st, v.T, v.Ty)
+			return v
+		}
 		x := fv.eval(st, e.X)
 		v := fv.selectPath(st, x, sel.Index(), fv.exprText(e))
 		fv.assumeInv(st, v.T, v.Ty)
@@ -900,6 +910,13 @@ func (fv *FuncVerifier) evalAddr(st *State, x ast.Expr, t types.Type) Val {
 		// NOT connected to the field's value (sound for opaque objects reached only through such pointers)
 		if sel, ok := fv.info().Selections[x]; ok && sel.Kind() == types.FieldVal && len(sel.Index()) == 1 {
 			if bt := fv.typeOf(x.X); bt != nil {
+				if _, isStruct := bt.Underlying().(*types.Struct); isStruct {
+					if inner, ok := unparen(x.X).(*ast.SelectorExpr); ok {
+						base := fv.evalAddr(st, inner, types.NewPointer(bt))
+						fv.eng.needFieldAddr()
+						return Val{T: fmt.Sprintf("(addr.field %s %d)", base.T, sel.Index()[0]), Ty: t}
+					}
+				}
 				if _, isPtr := bt.Underlying().(*types.Pointer); isPtr {
 					base := fv.eval(st, x.X)
 					fv.eng.needFieldAddr()
@@ -1055,4 +1072,17 @@ func (fv *FuncVerifier) boxIface(st *State, v Val, target types.Type) Val {
 	fv.eng.dynVals[fn] = fv.eng.sc.sortOf(v.Ty)
 	fv.assume(st, "(and (> "+r+" 0) (= (dyn.type "+r+") "+tag+") (= ("+fn+" "+r+") "+v.T+"))")
 	return Val{T: r, Ty: target}
+}
+
+// aliasTarget returns the location expression an identifier is an alias of (see scanAliases).
+func (fv *FuncVerifier) aliasTarget(e ast.Expr) ast.Expr {
+	id, ok := unparen(e).(*ast.Ident)
+	if !ok || fv.aliases == nil {
+		return nil
+	}
+	o := fv.info().ObjectOf(id)
+	if o == nil {
+		return nil
+	}
+	return fv.aliases[o]
 }
